@@ -411,6 +411,8 @@ class Interp:
             key = "%s:%s" % (fn.module.__name__, fn.qualname)
             if key in self.modular and key in self.contracts:
                 return self.contracts[key](self, *args, **kwargs)
+            if key in self.models:
+                return self.models[key](self, *args, **kwargs)
             return self.call_ifunc(fn, args, kwargs)
         # models for library functions (keyed by identity of the real object or by name)
         m = self._find_model(fn)
